@@ -1,10 +1,57 @@
 import TempestVerif.Drv.Util
-/- line-protocol handlers of property C07 (stub: no commands yet) -/
+import TempestVerif.Model.Records
+import TempestVerif.Gen.Tables
+/- line-protocol handlers of property C07: particle movement on TAGS.
+   A particle is a natural-number tag; `T u = u`, `Lk x = (x, x)`, so a coherent record is one whose four
+   tags agree.  The field tables are the ones regenerated from /repo (`Gen.Tables`).
+
+   rec.run ops=<op>;<op>;…      ops:  draw:<tags>   commit   res:<idx>   mut:<tags>:<mask bits>   rep:<tgt>:<src>
+   → after the whole sequence:   cur=<u>/<x>/<l>/<b> hist=<batch>|<batch>…   (each batch u/x/l/b)   or  error:<op index>
+-/
 namespace Drv.C07
-open Drv
+open Drv Model.Records
+
+def genTables : Tables :=
+  { resampleGather := Gen.Tables.resampleGather
+    mcmcMasked := Gen.Tables.mcmcMasked
+    warmupReplace := Gen.Tables.warmupReplace }
+
+def parseBits? (s : String) : Option (List Bool) :=
+  if s == "-" then some [] else
+  s.toList.mapM fun c => if c == '1' then some true else if c == '0' then some false else none
+
+def parseOp? (s : String) : Option (Op Nat) :=
+  match s.splitOn ":" with
+  | ["commit"] => some .commit
+  | ["draw", ts] => (parseNatList? ts).map .priorDraw
+  | ["res", is] => (parseNatList? is).map .resample
+  | ["mut", ts, m] => match parseNatList? ts, parseBits? m with
+    | some t, some b => some (.mutate t b)
+    | _, _ => none
+  | ["rep", t, s] => match parseNatList? t, parseNatList? s with
+    | some t, some s => some (.replaceInf t s)
+    | _, _ => none
+  | _ => none
+
+def showPop (p : Pop Nat Nat Nat Nat) : String :=
+  s!"{showList toString p.u}/{showList toString p.x}/{showList toString p.l}/{showList toString p.b}"
+
+def runOps (ops : List (Op Nat)) : String :=
+  let T : Nat → Nat := id
+  let Lk : Nat → Nat × Nat := fun x => (x, x)
+  let rec go (s : St Nat Nat Nat Nat) (k : Nat) : List (Op Nat) → String
+    | [] => s!"cur={showPop s.cur} hist={if s.hist.isEmpty then "-" else "|".intercalate (s.hist.map showPop)}"
+    | o :: os => match step genTables T Lk s o with
+      | some s' => go s' (k + 1) os
+      | none => s!"error:{k}"
+  go ⟨[], ⟨[], [], [], []⟩⟩ 0 ops
 
 def handle (cmd : String) (args : List (String × String)) : Option String :=
   match cmd with
+  | "rec.run" =>
+    match (getArg args "ops").bind fun s => (s.splitOn ";").mapM parseOp? with
+    | some ops => some (runOps ops)
+    | none => some "bad-op"
   | _ => none
 
 end Drv.C07
